@@ -1,5 +1,103 @@
 import ZoektModel.Basic.Proto
+import ZoektModel.C38.Spec
 namespace ZoektModel.C38
-/-- stub: no model driver for C38 yet -/
-def main : IO Unit := ZoektModel.Proto.runLines (fun _ => ZoektModel.Proto.badCase "no model driver for C38")
+open ZoektModel ZoektModel.Proto
+
+/-- strings travel as `x<hex of UTF-8>` (so that the empty string and the empty list stay distinct) -/
+def str? (s : String) : Option String :=
+  if s.startsWith "x" then do
+    let b ← hexCharsToBytes (s.drop 1).toString.toList
+    String.fromUTF8? b.toByteArray
+  else none
+
+def encStr (s : String) : String :=
+  "x" ++ String.ofList (s.toUTF8.toList.flatMap fun b => [hexDigit (b.toNat / 16), hexDigit (b.toNat % 16)])
+
+def list? {α} (sep : String) (f : String → Option α) (s : String) : Option (List α) :=
+  if s == "-" then some [] else (s.splitOn sep).mapM f
+
+def pair? (s : String) : Option (String × String) :=
+  match s.splitOn "=" with
+  | [k, v] => do pure (← str? k, ← str? v)
+  | _ => none
+
+def encPairs (l : List (String × String)) : String :=
+  showList id ((l.map fun kv => encStr kv.1 ++ "=" ++ encStr kv.2).mergeSort fun a b => !(decide (b < a)))
+
+def repo? (s : String) : Option Repo :=
+  match s.splitOn "~" with
+  | [id, nm, brs, raw, url, c, f, l, io, md] => do
+    let id ← id.toNat?
+    let nm ← str? nm
+    let brs ← list? "+" (fun b => do let (n, v) ← pair? b; pure (Branch.mk n v)) brs
+    let raw ← if raw == "nil" then some none else (list? "+" pair? raw).map some
+    let md ← list? "+" pair? md
+    pure ⟨id, nm, brs, raw, ← str? url, ← str? c, ← str? f, ← str? l, ← str? io, md⟩
+  | _ => none
+
+def encRepo (r : Repo) : String :=
+  let brs := showList (fun (b : Branch) => encStr b.name ++ "=" ++ encStr b.version) r.branches
+  let brs := brs.replace "," "+"
+  let raw := match r.rawConfig with
+    | none => "nil"
+    | some m => (encPairs m).replace "," "+"
+  "~".intercalate [toString r.id, encStr r.name, brs, raw, encStr r.url, encStr r.commitURLTemplate,
+    encStr r.fileURLTemplate, encStr r.lineFragmentTemplate, encStr r.indexOptions, (encPairs r.metadata).replace "," "+"]
+
+def opts? (s : String) : Option Opts :=
+  match s.splitOn "|" with
+  | [sm, tm, dis, ct, scip, must, lf, lm, repo] => do
+    let lm ← list? "," (fun e => match e.splitOn "=" with
+      | [k, v] => do pure (← str? k, ← v.toNat?)
+      | _ => none) lm
+    pure ⟨← sm.toInt?, ← tm.toInt?, ← bool? dis, ← str? ct, ← str? scip, ← bool? must, ← list? "," str? lf, lm, ← repo? repo⟩
+  | _ => none
+
+def disk? (s : String) : Option Disk :=
+  if s == "noshard" then some .noShard
+  else if s == "garbage" then some .unreadable
+  else match s.splitOn ":" with
+    | ["shard", fmt, feat, repos] => do
+      pure (.shard (← fmt.toNat?) (← feat.toNat?) (← list? ";" repo? repos))
+    | _ => none
+
+def versions? (s : String) : Option Versions :=
+  match s.splitOn ":" with
+  | [a, b, c] => do pure ⟨← a.toNat?, ← b.toNat?, ← c.toNat?⟩
+  | _ => none
+
+def state? (s : String) : Option State :=
+  [State.missing, .corrupt, .version, .option, .metaOnly, .content, .equal].find? fun st => st.toString == s
+
+def handle (line : String) : String :=
+  let (inp, impl) := splitCase line
+  match fields inp with
+  | ["hash", o] =>
+    match opts? o with
+    | some o => answer (getHash o)
+    | none => badCase "hash fields"
+  | ["merge", r, x] =>
+    match repo? r, repo? x with
+    | some r, some x =>
+      answer (match mergeMutable r x with
+        | .error .id => "err:ID"
+        | .error .name => "err:Name"
+        | .error .branches => "err:Branches"
+        | .ok (m, r') => s!"ok:{showBool m}:{encRepo r'}")
+    | _, _ => badCase "merge fields"
+  | ["state", healthy, v, d, a, b] =>
+    match bool? healthy, versions? v, disk? d, opts? a, opts? b with
+    | some healthy, some v, some d, some a, some b =>
+      let model := (indexState v d b).toString
+      if !healthy then answer model else
+      match state? impl with
+      | none => badCase "state impl"
+      | some st =>
+        match violation a b st with
+        | none => answer model
+        | some key => specFail model key
+    | _, _, _, _, _ => badCase "state fields"
+  | _ => badCase "op"
+
+def main : IO Unit := runLines handle
 end ZoektModel.C38
